@@ -84,32 +84,6 @@ func verifH_C18_model_fire() {
 	verifReach("end")
 }
 
-func verifHandlerA(string) {}
-func verifHandlerB(int)    {}
-func verifHandlerC()       {}
-func verifHandlerD(bool)   {}
-
-var verifHandlerFns = []any{verifHandlerA, verifHandlerB, verifHandlerC, verifHandlerD}
-
-func verifEH(k int) *eventHandler {
-	h, err := newEventHandler(verifHandlerFns[k])
-	if err != nil {
-		panic(err)
-	}
-	return h
-}
-
-func verifCountEH(xs []*eventHandler, k int) int {
-	n := 0
-	p := reflect.ValueOf(verifHandlerFns[k]).Pointer()
-	for _, x := range xs {
-		if x.rv.Pointer() == p {
-			n++
-		}
-	}
-	return n
-}
-
 // C18_event_off: eventHandlerStore.off(name, handlers...) from an arbitrary state of two events.
 //
 //verif:unwind 12
